@@ -214,6 +214,9 @@ class Case:
                 if d and d.split(".")[0] in ("os", "sys"):
                     return NEUTRAL
                 return RAW  # an entity name as the user wrote it
+            loc_ = self._local_attr(f, e, at, depth)
+            if loc_ is not None:
+                return loc_
             if owner and not any(ctx.m.field(c, e.attr) is not None or any(e.attr in ctx.m.classes[s_].fields for s_ in ctx.m.subs.get(c, ())) for c in owner):
                 owner = None  # the inferred classes do not even have this field: inference too narrow
             return self.field(e.attr, depth + 1, owner)
@@ -234,6 +237,51 @@ class Case:
         if isinstance(e, ast.DictComp):
             return self._comp(f, e, e.value, depth + 1)
         return UNKNOWN
+
+    def _local_attr(self, f, e, at, depth):
+        """flow-sensitive read of `self.x`: when every path from the entry to `at`
+        passes a store to the same access path in this function, the value is
+        the join of those stores (the field-wide join would include the value
+        the store has just replaced)"""
+        from sa.cfg import assigned_paths
+        from sa.model import access_path
+
+        path = access_path(e)
+        if path is None or at is None or "." not in path:
+            return None
+        cfg = self.ctx.cfg(f)
+        n0 = cfg.node_of(at)
+        if n0 is None:
+            return None
+        vals, seen, stack = [], set(), [p for p, _ in n0.preds]
+        while stack:
+            i = stack.pop()
+            if i in seen:
+                continue
+            seen.add(i)
+            n = cfg.nodes[i]
+            a = n.ast
+            if n.kind == "entry":
+                return None
+            if n.kind == "stmt" and isinstance(a, (ast.Assign, ast.AnnAssign, ast.AugAssign)) and path in assigned_paths(a):
+                if isinstance(a, ast.Assign) and len(a.targets) == 1 and access_path(a.targets[0]) == path:
+                    vals.append(a)
+                    continue
+                return None
+            stack.extend(p for p, _ in n.preds)
+        if not vals:
+            return None
+        r = NEUTRAL
+        for a in vals:
+            k = (f.qual, path, id(a))
+            if k in self._visiting:
+                return None
+            self._visiting.add(k)
+            try:
+                r = join(r, self.of(f, a.value, a.value, depth + 1))
+            finally:
+                self._visiting.discard(k)
+        return r
 
     def _comp(self, f, comp, elt, depth):
         """case of a comprehension element: its loop variables take the element
